@@ -8,6 +8,9 @@ CLAIMED = {
  "C06": ("E2 product (complete over the grid)",
          "every ordered pair of a boundary grid of 64-bit integers (all +-2^k, +-(2^k+-1), sqrt(2^63) neighbours, extremes; 105 values quick / ~700 thorough) x {+ - * / %} x 6 forms (expression, op-assign on variable / element / property in two spellings, x = x op y), 6 comparisons, the division identity, every `_` placement (<=2) in every non-negative grid literal with and without `-`, too-large literals in 7 contexts, ranges a .. a+d; oracle = i128 arithmetic and the diagnostic clause of the statement",
          "exhaustive enumeration of a finite product space on the real interpreter against exact (i128) arithmetic"),
+ "C07": ("E2 product over construct nestings",
+         "all chains of depth 1..3 (thorough: plus depth 4 over 10 core constructs) over ~38 (thorough 64) construct variants (bare block, if x truth value, if/else x arm, else-if chains of 2 and 3 conditions x all truth assignments x child arm, while, for over list literal / list variable / string / object / range, named / anonymous / method call) x 13 innermost statements (none; break / continue / return bare or armed to fire on the 1st/2nd/3rd reach), the same chains with the jump in a sibling position before / after the child at every level, a shadowed variable declared at every level, and 30 loop bodies that mutate the iterated value or the loop bound; oracle = exact print trace and termination class of the reference interpreter",
+         "exhaustive enumeration of construct nestings x jump placements x truth assignments on the real interpreter against a reference interpreter"),
  "C11": ("E2 product (complete)",
          "all lists of length 0..4 (quick) / 0..7 (thorough) and strings of length 0..5 / 0..7 plus multi-byte strings x every index in [-2,len+2] x every bound pair in ([-2,len+2] + omitted)^2 x element assignment x range assignment from lists, strings (ASCII and multi-byte) and the list itself of every length 0..len+1 x all concatenation length pairs x non-integer index kinds; oracle = slice model written from the statement (definedness domain + value) and the laws s[:k]+s[k:]==s, (s+t)[len(s)+i]==t[i] evaluated by the subject",
          "exhaustive enumeration of all sequences/indices/bounds up to a length bound on the real interpreter against a sequence model"),
